@@ -106,8 +106,8 @@ func execC09(seg []Ev) []Ev {
 
 func genC09(g *Gen) {
 	r := g.Rand()
-	sepSets := [][]rune{{','}, {';'}, {',', ';'}, {'\t', '|', ','}}
-	quoteSets := [][]rune{{'"'}, {'\''}, {'"', '\''}, {'`', '"'}}
+	sepSets := [][]rune{{','}, {';'}, {',', ';'}, {'\t', '|', ','}, {0x2502}, {',', 0xA6, 0x3001}}
+	quoteSets := [][]rune{{'"'}, {'\''}, {'"', '\''}, {'`', '"'}, {0x201C}, {'"', 0xAB}}
 	eols := []string{"\n", "\r", "\r\n", "\n\r"}
 	special := func(seps, quotes []rune, c rune) bool {
 		if c == '\r' || c == '\n' {
